@@ -8,11 +8,30 @@ import extract, facts, core, selftest
 import main as M
 
 
+def evaluate(meta, mf, files, FX):
+    P = facts.load(files)
+    fired = {}
+    for p in sorted(core.RULES):
+        c = core.Ctx(p, P, 'quick', 'default', FX)
+        c.run()
+        ks = [o.key for o in c.failed()]
+        if ks:
+            fired[p] = ks
+    prop = meta['property']
+    meta['detected_by'] = fired
+    meta['also_detected_by'] = [p for p in fired if p != prop]
+    meta['expect'] = {p: (os.path.commonprefix(ks).rsplit('/', 1)[0] if len(ks) > 1 else ks[0]) for p, ks in fired.items()}
+    meta['status'] = 'caught' if prop in fired else ('caught-by-other-property' if fired else 'MISSED')
+    json.dump(meta, open(mf, 'w'), indent=1)
+    return (meta['id'], meta['status'], {p: ks[:3] for p, ks in fired.items()})
+
+
 def main(argv):
     sub = argv[0] if argv else ''
     M.load_rules()
     d, repo = selftest.make_scratch()
     FX = facts.load([extract.extract_fixture()])
+    state = selftest._repo_state()
     rows = []
     try:
         for sd in sorted(glob.glob(os.path.join(core.VERIF, 'seeded', '*'))):
@@ -22,6 +41,11 @@ def main(argv):
             if not os.path.exists(mf):
                 continue
             meta = json.load(open(mf))
+            vk = os.path.join(selftest.VCACHE, selftest._variant_key({'kind': 'diff', 'patch': os.path.join(sd, 'patch.diff')}, state))
+            cached = sorted(glob.glob(os.path.join(vk, '*.jsonl')))
+            if cached:
+                rows.append(evaluate(meta, mf, cached, FX))
+                continue
             subprocess.check_call(['rsync', '-a', '--delete', '--exclude', '/target', '--exclude', '/.git', extract.REPO + '/', repo + '/'])
             r = subprocess.run(['patch', '-p1', '--no-backup-if-mismatch', '-i', os.path.join(sd, 'patch.diff')], cwd=repo, stdout=subprocess.PIPE, stderr=subprocess.STDOUT, text=True)
             if r.returncode != 0:
@@ -34,21 +58,9 @@ def main(argv):
             except extract.NoVerdict as e:
                 rows.append((meta['id'], 'no-compile', str(e)[-200:]))
                 continue
-            P = facts.load(files)
-            fired = {}
-            for p in sorted(core.RULES):
-                c = core.Ctx(p, P, 'quick', 'default', FX)
-                c.run()
-                ks = [o.key for o in c.failed()]
-                if ks:
-                    fired[p] = ks
-            prop = meta['property']
-            meta['detected_by'] = fired
-            meta['also_detected_by'] = [p for p in fired if p != prop]
-            meta['expect'] = {p: (os.path.commonprefix(ks).rsplit('/', 1)[0] if len(ks) > 1 else ks[0]) for p, ks in fired.items()}
-            meta['status'] = 'caught' if prop in fired else ('caught-by-other-property' if fired else 'MISSED')
-            json.dump(meta, open(mf, 'w'), indent=1)
-            rows.append((meta['id'], meta['status'], {p: ks[:3] for p, ks in fired.items()}))
+            os.makedirs(vk, exist_ok=True)
+            files = [shutil.copy2(f, vk) for f in files]
+            rows.append(evaluate(meta, mf, files, FX))
     finally:
         shutil.rmtree(d, ignore_errors=True)
     for r in rows:
